@@ -23,6 +23,10 @@ impl Obj {
         self.d.extend_from_slice(&v.to_be_bytes());
         self
     }
+    pub fn i8(&mut self, v: i8) -> &mut Obj {
+        self.d.push(v as u8);
+        self
+    }
     pub fn u32(&mut self, v: u32) -> &mut Obj {
         self.d.extend_from_slice(&v.to_be_bytes());
         self
@@ -156,17 +160,86 @@ pub fn gdef_tab(g: &Value) -> &str {
     g["tab"].as_str().unwrap_or("full")
 }
 
+/// ItemVariationStore (format 1) of `var`: region list (axisCount x [start, peak, end] F2Dot14 per
+/// region) and one ItemVariationData per entry of var.data (wc 16-bit columns, the rest 8-bit).
+fn item_variation_store(var: &Value) -> Obj {
+    let regions = arr(&var["regions"]);
+    let axes = arr(&var["tuple"]["c"]).len();
+    let mut rl = Obj::new();
+    rl.u16(axes as u16).u16(regions.len() as u16);
+    for reg in regions {
+        let reg = arr(reg);
+        assert_eq!(reg.len(), axes, "region axis count");
+        for a in reg {
+            rl.i16(int(&a["s"]) as i16).i16(int(&a["p"]) as i16).i16(int(&a["e"]) as i16);
+        }
+    }
+    let data = arr(&var["data"]);
+    let mut o = Obj::new();
+    o.u16(1).off32(rl).u16(data.len() as u16);
+    for blk in data {
+        let regs = ints(&blk["regs"]);
+        let wc = int(&blk["wc"]) as usize;
+        let sets = arr(&blk["sets"]);
+        let mut d = Obj::new();
+        d.u16(sets.len() as u16).u16(wc as u16).u16(regs.len() as u16);
+        for r in &regs {
+            d.u16(*r as u16);
+        }
+        for row in sets {
+            let row = ints(row);
+            assert_eq!(row.len(), regs.len(), "delta set width");
+            for (k, v) in row.iter().enumerate() {
+                if k < wc {
+                    d.i16(*v as i16);
+                } else {
+                    assert!((-128..=127).contains(v), "8-bit delta column");
+                    d.i8(*v as i8);
+                }
+            }
+        }
+        o.off32(d);
+    }
+    o
+}
+
+/// Device / VariationIndex table behind an offset of a value record or an anchor:
+/// {k:"null"} -> NULL offset, {k:"hint", fmt} -> Device table for ppem 12..13 with non-zero pixel
+/// deltas in delta format 1..3, {k:"var", o, i} -> VariationIndex (deltaFormat 0x8000).
+fn device(d: &Value) -> Option<Obj> {
+    let mut o = Obj::new();
+    match d["k"].as_str().unwrap_or("null") {
+        "null" => return None,
+        "hint" => {
+            let f = int(&d["fmt"]) as u16;
+            let word = match f {
+                1 => 0x6000u16, // 2-bit values 1, -2
+                2 => 0x3F00,    // 4-bit values 3, -1
+                _ => 0x05FD,    // 8-bit values 5, -3
+            };
+            o.u16(12).u16(13).u16(f).u16(word);
+        }
+        "var" => {
+            o.u16(int(&d["o"]) as u16).u16(int(&d["i"]) as u16).u16(0x8000);
+        }
+        k => panic!("unknown device kind {}", k),
+    }
+    Some(o)
+}
+
 /// GDEF 1.2: glyph class definition (NULL offset for tab = "noclassdef"), mark attachment classes,
-/// mark glyph sets. `None` when the font has no GDEF table.
-pub fn gdef(g: &Value) -> Option<Vec<u8>> {
+/// mark glyph sets; GDEF 1.3 with an ItemVariationStore when the program's `var` says the font has
+/// one. `None` when the font has no GDEF table.
+pub fn gdef(g: &Value, var: Option<&Value>) -> Option<Vec<u8>> {
     let tab = gdef_tab(g);
     if tab == "absent" {
         return None;
     }
     let cls = serde_json::json!({"f": 2, "m": g["cls"]});
     let att = serde_json::json!({"f": 1, "m": g["att"]});
+    let store = var.filter(|v| v["store"].as_bool().unwrap_or(false));
     let mut o = Obj::new();
-    o.u16(1).u16(2);
+    o.u16(1).u16(if store.is_some() { 3 } else { 2 });
     if tab == "noclassdef" {
         o.null16();
     } else {
@@ -186,6 +259,9 @@ pub fn gdef(g: &Value) -> Option<Vec<u8>> {
         }
         o.off16(s);
     }
+    if let Some(v) = store {
+        o.off32(item_variation_store(v));
+    }
     Some(o.flatten())
 }
 
@@ -196,9 +272,18 @@ fn value_record(o: &mut Obj, vf: i64, v: &Value) {
             o.i16(int(&v[*f]) as i16);
         }
     }
+    // device / variation index offsets, relative to the object the record is written into (the
+    // SinglePos / PairPos format 2 subtable, the PairSet of PairPos format 1); null without v.dev
     for b in 4..8 {
         if vf & (1 << b) != 0 {
-            o.u16(0); // device / variation index offset: null
+            match v.get("dev") {
+                Some(dev) => {
+                    o.opt16(device(&arr(dev)[b - 4]));
+                }
+                None => {
+                    o.u16(0);
+                }
+            }
         }
     }
 }
@@ -215,9 +300,15 @@ fn anchor(a: &Value) -> Option<Obj> {
         2 => {
             o.u16(3); // anchorPoint (contour point index, unused without hinting)
         }
-        3 => {
-            o.null16().null16();
-        }
+        3 => match a.get("dev") {
+            // xDeviceOffset, yDeviceOffset from the beginning of the Anchor table
+            Some(dev) => {
+                o.opt16(device(&arr(dev)[0])).opt16(device(&arr(dev)[1]));
+            }
+            None => {
+                o.null16().null16();
+            }
+        },
         _ => {}
     }
     Some(o)
